@@ -155,7 +155,7 @@ def gen_vcf(rng, nsamples=None, nchrom=None, nrec=None, allow_odd=True, allow_un
                 pre = []
             keys = keys + pre
             rng.shuffle(keys)
-            has_gt = not (allow_no_gt and rng.random() < 0.04)
+            has_gt = not (allow_no_gt and rng.random() < 0.012)
             fmt = (["GT"] if has_gt else []) + keys
             if not fmt:
                 fmt = ["GQ"]
